@@ -42,6 +42,8 @@ pub struct GenCfg {
 	pub p_nested: u8,
 	/// class simple names may be `$`, `a$`, `$a`
 	pub weird_dollar: bool,
+	/// with `injective`: member names get the unique suffix too
+	pub injective_members: bool,
 }
 
 impl Default for GenCfg {
@@ -63,6 +65,7 @@ impl Default for GenCfg {
 			param_src_names: true,
 			p_nested: 40,
 			weird_dollar: false,
+			injective_members: true,
 		}
 	}
 }
@@ -355,14 +358,14 @@ pub fn build(cfg: &GenCfg, n: usize, raws: &[RawClass]) -> MapSet {
 		let mut c = MClass { names: node.full.clone(), doc: build_doc(cfg, &raw.doc), ..Default::default() };
 		for f in &raw.fields {
 			member_counter += 1;
-			let suffix = if cfg.injective { Some(member_counter) } else { None };
+			let suffix = if cfg.injective && cfg.injective_members { Some(member_counter) } else { None };
 			let names = build_row(cfg, n, &f.row, FIELD_PLACEHOLDER, suffix);
 			let key = MemberKey { name: names[0].clone().unwrap(), desc: build_type(&f.ty, &class_pool) };
 			c.fields.entry(key).or_insert(MField { names, doc: build_doc(cfg, &f.doc) });
 		}
 		for me in &raw.methods {
 			member_counter += 1;
-			let suffix = if cfg.injective { Some(member_counter) } else { None };
+			let suffix = if cfg.injective && cfg.injective_members { Some(member_counter) } else { None };
 			let mut names = build_row(cfg, n, &me.row, METHOD_PLACEHOLDER, suffix);
 			// method names must not contain < or > unless <init>/<clinit>
 			for nm in names.iter_mut().flatten() {
